@@ -37,6 +37,18 @@ CHECKS = {
     'C13': dict(tech='complete bounded product of annotation placements x permission subsets x redaction on/off x encoders, packed into generated specs and executed on the serializers',
                 text='Omission patterns over inheritance chains (depth 3 quick / 4 thorough) and union chains, omitted fields behind containers, union members and subtype trees, for every subset of the caller classes: visible iff permitted, strict decode refuses iff not permitted; every redactor kind at every eligible placement: no clear sentinel in the output with redaction on, exact mask at scalar positions, untouched with redaction off.',
                 note='Visibility/redaction model from lang_ref.rst; exact masks judged at scalar and one-level positions only.', ref='6/C13'),
+    'C09': dict(tech='BFS-explored codegen universe (family pairs/triples + cross-namespace alias product) x every namespace as first import; generated modules imported and reflected against the model',
+                text='For every explored model python_types is generated and, for every namespace as first import, imported (fresh package in-process; fresh interpreter for multi-namespace models up to the stated depth) and reflected: classes, field attributes (unset read, validator, delete), constructors, union helpers and ready void instances, inheritance, validators with their parameters, route objects, attrs and ROUTES.',
+                note='Models use identifiers already in the case style of the generated names; Python reserved words are excluded by the property.', ref='6/C09'),
+    'C12': dict(tech='complete enumeration of configurations: specs x backends x covering hash-seed set x histories x option sets x output directories, each run in its own interpreter',
+                text='The covering seed set is computed so that every same-kind identifier pair is seen in both set-iteration orders and every caller triple in all six; every configuration output must be byte-identical to the reference configuration.',
+                note='Object addresses are not controlled (perturbed by the history dimension).', ref='6/C12'),
+    'C14': dict(tech='complete bounded product of route shapes packed into generated specs; generated client methods called against a recording request()',
+                text='Every sequence of field kinds up to the length bound, flat and split over inheritance, plus union/Void arguments, over versions, deprecation, styles, result kinds and namespace layouts: signature order and defaults, exactly one request with the right route object, namespace, argument, body; warning iff deprecated; return value.',
+                note='Expected arguments are built by attribute assignment on the generated classes.', ref='6/C14'),
+    'C15': dict(tech='BFS-explored codegen universe; parsed stub (ast) compared with the introspected runtime module and an independent Stone->PEP 484 mapping',
+                text='For every explored model and namespace: classes, attributes, helpers, validators, class aliases, routes, bases, constructor parameters agree between stub and runtime module; annotations equal the reference mapping; every annotation name resolves.',
+                note='ROUTES, dunder and private attributes are outside the comparison.', ref='6/C15'),
 }
 
 NOT_YET = {}
